@@ -15,6 +15,8 @@ PREFIXES = ["ex", "p", "ex_1", "dn", "dn_1", "q"]
 RESERVED_PREFIXES = ["xsd", "prov", "xsi"]   # user declarations of these must be renamed, never shadow the built-ins
 ID_LOCALS = ["e1", "e2", "a1", "ag1", "x", "r1"]
 ATTR_LOCALS = ["k", "k2", "name"]
+# application attributes whose local part is also the local part of a PROV attribute (they are NOT the PROV ones)
+PROV_LOOKALIKE_LOCALS = ["time", "entity", "agent", "type", "label", "value", "plan", "startTime", "activity", "role"]
 TYPES_NS = "http://types.example/t#"   # a namespace documents never register themselves
 
 PROFILES = ("json", "xml", "provn", "rdf", "graph", "dot", "io")
@@ -39,8 +41,11 @@ def _local_alphabet(profile, role):
 def local_part(draw, profile="json", role="id"):
     first, extra = _local_alphabet(profile, role)
     pool = ID_LOCALS if role == "id" else ATTR_LOCALS
-    if draw(st.integers(0, 9)) < 7:
+    roll = draw(st.integers(0, 19))
+    if roll < 14:
         return draw(st.sampled_from(pool))
+    if roll == 14 and role != "id":
+        return draw(st.sampled_from(PROV_LOOKALIKE_LOCALS))
     head = draw(st.sampled_from(first if role == "id" else first.replace("0", "").replace("1", "").replace("9", "")))
     n = draw(st.integers(0, 5))
     body = "".join(draw(st.lists(st.sampled_from(first + extra), min_size=n, max_size=n)))
@@ -142,7 +147,7 @@ def native_typed_literal():
             lambda f: {"k": "tlit", "v": repr(f), "dt": "double", "py": {"k": "float", "v": f.hex()}}),
         st.sampled_from([("true", True), ("false", False), ("1", True), ("0", False)]).map(
             lambda t: {"k": "tlit", "v": t[0], "dt": "boolean", "py": {"k": "bool", "v": t[1]}}),
-        st.sampled_from(["plain", "", "a b", "é"]).map(
+        st.sampled_from(["plain", "", "a b", "é", " padded ", "line\n", "\tcell", " "]).map(
             lambda s: {"k": "tlit", "v": s, "dt": "string", "py": {"k": "str", "v": s}}),
         st.sampled_from(_URIS).map(lambda u: {"k": "tlit", "v": u, "dt": "anyURI", "py": {"k": "uri", "v": u}}),
         datetime_iso().map(lambda t: {"k": "tlit", "v": t, "dt": "dateTime", "py": {"k": "dt", "v": t}}),
